@@ -1,2 +1,115 @@
-(* C01 — placeholder until the scanner theorems are pinned. *)
-From JV Require Import Bytes Tables TextTok TextTape.
+(* C01 — Text tape mirrors the document regardless of layout.
+   Statements only; every proof is [exact lemma].  The model functions (TextTape.v) are the ones
+   the correspondence check runs against text/tape.rs; the document type, `flatten`, `render`
+   and the layout predicates are TextDoc.v (Coq counterpart of props/textdoc.py). *)
+From JV Require Import Bytes Tables TextTok TextTape TextDoc.
+From JV.proofs Require Import TextScanProofs TextParseProofs.
+Open Scope nat_scope.
+
+(* 1. the byte set tested by the SSE2 compare chain of split_at_scalar (operands regenerated from
+   text/tape.rs) is exactly the boundary class of data.rs CHARACTER_CLASS (regenerated too) *)
+Theorem C01_simd_set_eq_class : forall b, In b simd_boundary_bytes <-> is_boundary b = true.
+Proof. exact simd_set_eq_class. Qed.
+Print Assumptions C01_simd_set_eq_class.
+
+(* 2. split_at_scalar = cut at the first boundary byte (at least one byte), for every length and
+   every position of the boundary relative to the 16-byte blocks *)
+Theorem C01_split_at_scalar_spec : forall d, d <> [] ->
+  let i := Nat.max 1 (match find_idx is_boundary d 0 with Some i => i | None => length d end) in
+  split_at_scalar d = Ok (firstn i d, skipn i d).
+Proof. exact split_at_scalar_spec. Qed.
+Print Assumptions C01_split_at_scalar_spec.
+
+(* 3. parse_quote_scalar = the escape-aware byte scan; the block walk never changes its answer *)
+Theorem C01_quote_scalar_spec : forall h,
+  parse_quote_scalar (34%N :: h) =
+  match tq_scan h 0 with
+  | Some i => Ok (firstn i h, skipn (S i) h)
+  | None => Err E_TextErr
+  end.
+Proof. intros h. exact (quote_scalar_spec 34%N h). Qed.
+Print Assumptions C01_quote_scalar_spec.
+
+(* 4. skip_ws_t skips exactly a gap (whitespace bytes, ';' and complete comments) and stops at the
+   first significant byte *)
+Theorem C01_skip_ws_spec : forall gap rest, gap_ok gap ->
+  skip_ws_t (gap ++ rest) = skip_ws_t rest /\
+  (forall c r, rest = c :: r -> is_ws_t c = false -> c <> 35%N -> skip_ws_t (gap ++ rest) = Some rest).
+Proof. exact skip_ws_spec. Qed.
+Print Assumptions C01_skip_ws_spec.
+
+(* non-vacuity: a gap with a comment containing structural bytes, CRLF, tabs and ';' *)
+Example C01_gap_nonvacuous :
+  gap_ok [32; 35; 97; 123; 34; 61; 35; 10; 13; 10; 9; 59; 32]%N.
+Proof. apply gap_okb_sound. reflexivity. Qed.
+
+(* 5. THE PROPERTY, for the whole grammar of TextDoc.v (every construct of props/textdoc.py:
+   fields with all 8 operators, quoted/unquoted scalars, nested objects and arrays, empty
+   containers, arrays of containers, `key {` without `=`, headers, mixed containers of both kinds,
+   parameter values and parameter objects, also as the first member of an object) and EVERY
+   layout: any gap of white space / CR / LF / ';' / complete comments between any two tokens and
+   around the document, optional BOM.  [wf_layout] only asks that a bare word is followed by a
+   boundary byte and that the BOM flag is truthful.  Block positions are irrelevant because the
+   scanner theorems 2 and 3 hold for every length and offset. *)
+Theorem C01_parse_render : forall d l,
+  wf_doc d -> wf_layout d l -> parse (render d l) = Ok (flatten d, bom l).
+Proof. exact parse_render. Qed.
+Print Assumptions C01_parse_render.
+
+Theorem C01_layout_independent : forall d l1 l2,
+  wf_doc d -> wf_layout d l1 -> wf_layout d l2 ->
+  omap fst (parse (render d l1)) = omap fst (parse (render d l2)).
+Proof. exact layout_independent. Qed.
+Print Assumptions C01_layout_independent.
+
+(* left padding 0..oo is a special case of a layout *)
+Theorem C01_padding_independent : forall d l pad,
+  wf_doc d -> wf_layout d l -> gap_ok pad ->
+  parse (render d (with_pad pad l)) = parse (render d l).
+Proof. exact padding_independent. Qed.
+Print Assumptions C01_padding_independent.
+
+(* non-vacuity: a document using every construct
+     [[p] 1 ] [[!q] k = v ] a = { [[x] y ] b = "x y" } m = { a = 1 x "y" } n = { p q r != s t = u }
+     l { 1 { 3 } { } } h = rgb { 1 } "k" ?= "0123456789abcde" z >= @[1 +2] @v = 1
+   with a comment directly after an operator (gap 6), no left padding, CRLF, ';', and a quoted
+   scalar of 15 bytes (closing quote on byte 15 of the first 16-byte block of its haystack) *)
+Open Scope N_scope.
+Definition ex_doc : doc :=
+  FCons (ParamV [112] false [49])
+ (FCons (ParamO [113] true (FCons (Field Unq [107] (Some Equal) (VScalar Unq [118])) FNil))
+ (FCons (Field Unq [97] (Some Equal)
+           (VObject (FCons (ParamV [120] false [121])
+                    (FCons (Field Unq [98] (Some Equal) (VScalar Quo [120;32;121])) FNil)) VNil))
+ (FCons (Field Unq [109] (Some Equal)
+           (VObject (FCons (Field Unq [97] (Some Equal) (VScalar Unq [49])) FNil)
+                    (VCons (VScalar Unq [120]) (VCons (VScalar Quo [121]) VNil))))
+ (FCons (Field Unq [110] (Some Equal)
+           (VArrayKv (VCons (VScalar Unq [112]) (VCons (VScalar Unq [113]) VNil))
+                     (FCons (Field Unq [114] (Some NotEqual) (VScalar Unq [115]))
+                     (FCons (Field Unq [116] (Some Equal) (VScalar Unq [117])) FNil))))
+ (FCons (Field Unq [108] None
+           (VArray (VCons (VScalar Unq [49]) (VCons (VArray (VCons (VScalar Unq [51]) VNil)) (VCons (VArray VNil) VNil)))))
+ (FCons (Field Unq [104] (Some Equal) (VHeader [114;103;98] (VArray (VCons (VScalar Unq [49]) VNil))))
+ (FCons (Field Quo [107] (Some TextTok.Exists) (VScalar Quo [48;49;50;51;52;53;54;55;56;57;97;98;99;100;101]))
+ (FCons (Field Unq [122] (Some GreaterThanEqual) (VScalar Unq [64;91;49;32;43;50;93]))
+ (FCons (Field Unq [64;118] (Some Equal) (VScalar Unq [49])) FNil))))))))).
+Definition ex_layout (b : bool) : layout :=
+  mkLayout b (fun i => if Nat.eqb i 0 then [] else if Nat.eqb i 6 then [35;99;32;123;34;10]
+                       else if Nat.eqb i 9 then [13;10;9] else if Nat.eqb i 20 then [32;59;32] else [32]).
+Open Scope nat_scope.
+
+Example C01_nonvacuous : forall b, wf_doc ex_doc /\ wf_layout ex_doc (ex_layout b).
+Proof.
+  intros b. split; [reflexivity|]. split; [|split].
+  - intros i. cbn [ex_layout gap].
+    repeat match goal with |- context [Nat.eqb i ?k] => destruct (Nat.eqb i k) end;
+      apply gap_okb_sound; reflexivity.
+  - cbn. repeat split; intros H; try discriminate H; try reflexivity; exact I.
+  - cbn [ex_layout bom]. intros ->. reflexivity.
+Qed.
+
+Example C01_example_runs :
+  parse (render ex_doc (ex_layout true)) = Ok (flatten ex_doc, true) /\
+  length (flatten ex_doc) = 56.
+Proof. split; vm_compute; reflexivity. Qed.
